@@ -89,10 +89,29 @@ def build(reg):
         calls={"obj_file.find_word_in_code_line": m_find_word, "path_to_uri": FrameCall(result=STR),
                "uri_json": "inline:fortls.json_templates.uri_json", "range_json": "inline:fortls.json_templates.range_json"},
         short="LangServer._create_ref_link"))
+    # ---- Diagnostic.build: the columns found by the word search belong to the line it reports
+    DIAGQ = "fortls.parsers.internal.diagnostics.Diagnostic.build"
+    reg.add(Contract(
+        DIAGQ, prop="C09", receiver_cls="Diagnostic", params={"file_obj": TObj("FortranFile")},
+        fields={"self.sline": INT, "self.find_word": TOpt(STR), "self.message": STR, "self.severity": INT,
+                "self.has_related": BOOL, "self.related_path": TOpt(STR), "self.related_line": TOpt(INT),
+                "self.related_message": TOpt(STR)},
+        requires=[("line_known", "self.sline >= 0")], ghost={"tuple_fields": {"start": 0, "end": 1}},
+        ensures=[("nonneg", "result['range']['start']['character'] >= 0 and result['range']['end']['character'] >= 0"),
+                 ("ordered", "result['range']['start']['character'] <= result['range']['end']['character']"),
+                 ("one_line", "result['range']['start']['line'] == result['range']['end']['line']"),
+                 ("columns_of_the_reported_line", "result['range']['end']['character'] <= raw_line_len(result['range']['end']['line'])")],
+        calls={"file_obj.find_word_in_code_line": m_find_word, "path_to_uri": FrameCall(result=STR),
+               "diagnostic_json": "inline:fortls.json_templates.diagnostic_json",
+               "range_json": "inline:fortls.json_templates.range_json",
+               "location_json": FrameCall(result=JSON)},
+        abstract_stmts={"if self.has_related ...": ()},
+        short="Diagnostic.build",
+        note="the statement attaching relatedInformation (another key of the result) is abstracted"))
     return reg
 
 
-TARGETS = [f"{AST}.add_error", f"{LS}._create_ref_link"]
+TARGETS = [f"{AST}.add_error", f"{LS}._create_ref_link", "fortls.parsers.internal.diagnostics.Diagnostic.build"]
 
 HANDLERS = ["serve_hover", "serve_definition", "serve_implementation", "serve_references", "serve_rename",
             "serve_signature", "serve_codeActions", "get_definition", "_create_ref_link", "serve_autocomplete"]
